@@ -235,6 +235,15 @@ theorem ring_derivation_rules {R : Type} [CommRing R] [Div R] {n : Nat} (a b : F
     toDual ((L.ops : ADOps R n).const c) = Dual.const c ∧
     toDual (L.mulSelf a) = Dual.mul (toDual a) (toDual a) := loop_ring_exact a b c
 
+/-- `MathToolbox<Evaluation>::isSame / isfinite / isnan` (one template for every variant), every n, any carrier and
+any scalar toolbox: `isSame(a, b, tol)` holds iff value AND every derivative are the same up to tol,
+`isfinite` iff every slot is finite, `isnan` iff some slot (value or a derivative) is NaN. -/
+theorem toolbox_predicates {α : Type} {n : Nat} (P : Preds α) (a b : Fin (n + 1) → α) (tol : α) :
+    (M.isSame P a b tol = true ↔ ∀ i, P.isSame (a i) (b i) tol = true) ∧
+    (M.isfinite P a = true ↔ ∀ i, P.isfinite (a i) = true) ∧
+    (M.isnan P a = true ↔ ∃ i, P.isnan (a i) = true) :=
+  ⟨isSame_iff P a b tol, isfinite_iff P a, isnan_iff P a⟩
+
 /-- Math.hpp at ties and at the kink, every input: `min`/`max` return one of their operands whole
 (value and all derivatives) — the SECOND one at a tie; `min/max(c, x)` return x at a tie; `abs` returns
 −x at x = 0; the value slot is min / max / |·| everywhere. -/
@@ -259,6 +268,8 @@ theorem pow_integer_exponent {n : Nat} (a : Fin (n + 1) → ℝ) (m : ℤ) (h : 
       toDual (M.pows RF a (m : ℝ)) = Dual.chain ((a 0) ^ m) d (toDual a) := pows_int_exact a m h
 
 /-! Non-vacuity (second part). -/
+/-- a NaN-like marker in derivative slot 2 only is seen by `isnan` -/
+example : M.isnan (n := 2) (⟨fun x => x == 7, fun x => x != 7, fun a b _ => a == b⟩ : Preds Nat) ![1, 2, 7] = true := by decide
 example : Exact2 (U8.ops2 : ADOps2 ℚ 8) := unrolled_exact2.2.2.2.2.2.2.2.1
 example : (U8.ops2 : ADOps2 Float 8) = L.ops2 := variants_agree2.2.2.2.2.2.2.2.1
 /-- a tie: equal values, different derivatives — `<=` holds, `==` does not -/
